@@ -418,7 +418,7 @@ pub fn property(tier: Tier) -> Property {
             panic_is_violation: false,
             render: |c: &Mixed| c.render(),
             rule: "mixed histories (insertions, unions, rewrite iterations) run with the min-size and the min-depth analysis; after every operation at every live class: datum = join (min) of make over eg.enodes, equal handles share a datum, data never go up, min-size = Bellman-Ford minimum = Extractor best cost; non-trivial = a datum was lowered after the class was created (propagation through merges) or the e-graph is cyclic; distinct by rendered history",
-            case_timeout_s: tier.pick(120, 600),
+            case_timeout_s: tier.pick(30, 120),
             exhaustive: false,
         }));
     }
@@ -429,7 +429,7 @@ pub fn property(tier: Tier) -> Property {
         panic_is_violation: true,
         render: render_const,
         rule: "histories over the F_5 language with a constant-folding analysis whose modify hook adds the constant and unites: insertions (half of them closed terms), unions with model-equal variants (checked exhaustively over all environments before use), rewrite iterations with model-valid rules; after every operation at every class: datum = join of make over e-nodes = independently computed least fixpoint, constant classes contain their numeral, data agree with the model value of the inserted terms, variable-free terms always have a datum; non-trivial = modify fired and a union happened; distinct by rendered history",
-        case_timeout_s: tier.pick(120, 600),
+        case_timeout_s: tier.pick(30, 120),
         exhaustive: false,
     }));
     Property { id: "C14", scale: tier.pick(5, 2), stages, assumptions: vec!["only model-valid unions and rules are generated for the constant analysis (merge asserts agreement)".into()] }
